@@ -29,6 +29,118 @@ class _Clock:
             return self.n / 1000.0
 
 
+_END_OPS = ("endTest", "endSessionSetup", "endSessionTeardown", "endSuiteSetup", "endSuiteTeardown")
+_START_OPS = ("startTest", "startSessionSetup", "startSessionTeardown", "startSuiteSetup", "startSuiteTeardown")
+
+
+def _loc_key(loc):
+    return (loc["k"], tuple(loc.get("path") or ()))
+
+
+def protocol_following(ops):
+    """the op sequence is one a run of the real runner can issue: no out-of-protocol call, every lcc.Thread
+    ends before the result it was created in ends, a thread's results do not nest, phase locations are unique"""
+    open_result = {}        # tid -> its start op
+    has_step = set()        # tids with a current step (the runner sets one before calling user code)
+    kids = {}               # tid -> set of live child tids
+    parent = {}
+    seen_loc = set()
+    for op in ops:
+        tid, k = op["tid"], op["op"]
+        if k == "endStep":
+            return False
+        if k in _START_OPS:
+            if tid in open_result:
+                return False
+            lk = (k, tuple(op.get("path") or ()))
+            if lk in seen_loc:
+                return False
+            seen_loc.add(lk)
+            open_result[tid] = k
+            has_step.discard(tid)
+        elif k in _END_OPS:
+            if open_result.get(tid) != "start" + k[3:] or kids.get(tid):
+                return False
+            del open_result[tid]
+            has_step.discard(tid)
+        elif k == "setStep":
+            if tid not in open_result and tid not in parent:
+                return False
+            has_step.add(tid)
+        elif k == "threadRun":
+            has_step.add(tid)
+        elif k == "threadCreate":
+            if tid not in has_step:
+                return False
+            kids.setdefault(tid, set()).add(op["new"])
+            parent[op["new"]] = tid
+        elif k == "threadEnd":
+            if kids.get(tid):
+                return False
+            kids.get(parent.get(tid), set()).discard(tid)
+        elif k in ("log", "check", "url", "attach", "attachBegin", "attachEnd"):
+            if tid not in has_step:
+                return False
+    return not open_result and not any(kids.values())
+
+
+def grammar_failures(prop, ops, fired):
+    """Statement-level facts of C07 on the fired stream of a protocol-following call sequence: steps are
+    opened and closed per emitting thread, every log lies inside the step open for its thread, every step
+    event lies between the start and the end event of the result (test / setup / teardown phase) it is
+    located at, and nothing that was started is left without its end."""
+    out = []
+
+    def bad(sig, i, e, why):
+        out.append(C.Failure(prop + "/" + sig, "fired[%d] = %s: %s" % (i, {k: v for k, v in e.items() if k != "md"}, why)))
+    opened = {}     # loc key -> "open" | "closed"
+    step = {}       # tid -> (loc key, desc)
+    starts = {"testStart": "test", "suiteSetupStart": "setup", "suiteTeardownStart": "teardown",
+              "sessionSetupStart": "ssetup", "sessionTeardownStart": "steardown"}
+    ends = {"testEnd": "test", "suiteSetupEnd": "setup", "suiteTeardownEnd": "teardown",
+            "sessionSetupEnd": "ssetup", "sessionTeardownEnd": "steardown"}
+    for i, e in enumerate(fired):
+        k = e["e"]
+        if k in starts:
+            lk = (starts[k], tuple(e.get("path") or ()))
+            if lk in opened:
+                bad("result-started-twice", i, e, "second start event for the same location")
+            opened[lk] = "open"
+        elif k in ends:
+            lk = (ends[k], tuple(e.get("path") or ()))
+            if opened.get(lk) != "open":
+                bad("end-without-start", i, e, "end event for a result that is not open")
+            opened[lk] = "closed"
+            for tid, (slk, d) in sorted(step.items()):
+                if slk == lk:
+                    bad("step-left-open-at-result-end", i, e, "step %r of thread %s is still open" % (d, tid))
+        elif k in ("stepStart", "stepEnd", "log", "check", "url", "att"):
+            lk = _loc_key(e["loc"])
+            if opened.get(lk) != "open":
+                bad("step-event-outside-its-result", i, e,
+                    "the start event of %s has %s" % (lk, "not been delivered" if lk not in opened else "already been ended"))
+            tid = e["tid"]
+            if k == "stepStart":
+                if tid in step:
+                    bad("step-started-inside-open-step", i, e, "thread %s still has step %r open" % (tid, step[tid][1]))
+                step[tid] = (lk, e["desc"])
+            elif k == "stepEnd":
+                if step.get(tid) != (lk, e["desc"]):
+                    bad("step-end-without-start", i, e, "open step of thread %s is %r" % (tid, step.get(tid)))
+                step.pop(tid, None)
+            else:
+                if step.get(tid) != (lk, e["step"]):
+                    bad("log-outside-open-step", i, e, "open step of thread %s is %r" % (tid, step.get(tid)))
+    for lk, st in sorted(opened.items()):
+        if st == "open":
+            out.append(C.Failure(prop + "/start-without-end", "result %s was started and never ended" % (lk,)))
+    for tid, (lk, d) in sorted(step.items()):
+        out.append(C.Failure(prop + "/start-without-end", "step %r of thread %s at %s never ended" % (d, tid, lk)))
+    if fired and (fired[0]["e"] != "sessionStart" or fired[-1]["e"] != "sessionEnd"):
+        out.append(C.Failure(prop + "/session-start-first-end-last", "first %s last %s" % (fired[0]["e"], fired[-1]["e"])))
+    return out
+
+
 def gen_ops(rng, chaos=0.05):
     """protocol-shaped op sequences of 1..3 worker threads (tids 1..3), each working through results, with
     lcc.Threads (tids 10+) spawned inside; `chaos` = probability of an out-of-protocol call."""
@@ -65,9 +177,18 @@ def gen_ops(rng, chaos=0.05):
                 out.append({"tid": tid, "op": "endStep"})
         return out
 
+    used_phases = set()
+
     def result_ops(tid):
         kind = rng.choice(["test", "test", "test", "skip", "disable", "ssetup", "steardown", "setup", "teardown", "suite"])
         sp = rng.choice(suites)
+        if kind in ("ssetup", "steardown", "setup", "teardown"):
+            # a phase location is worked on once per run (as in a real run)
+            key = (kind, tuple(sp) if kind in ("setup", "teardown") else ())
+            if key in used_phases:
+                kind = "test"
+            else:
+                used_phases.add(key)
         out = []
         if kind == "test":
             test_no[0] += 1
@@ -95,6 +216,14 @@ def gen_ops(rng, chaos=0.05):
             out.append(a)
             if rng.random() < 0.8:
                 out.append({"tid": tid, "op": "setStep", "desc": "Setup"})
+                if rng.random() < 0.25:
+                    # a lcc.Thread that is the first to log in the phase (the phase start event is still held)
+                    new = nxt_thread[0]
+                    nxt_thread[0] += 1
+                    out.append({"tid": tid, "op": "threadCreate", "new": new})
+                    out.append(("spawned", [{"tid": new, "op": "threadRun"},
+                                            {"tid": new, "op": "log", "level": "info", "msg": "first"},
+                                            {"tid": new, "op": "threadEnd"}]))
             out += body_ops(tid)
             out.append(b)
         return out
@@ -109,19 +238,24 @@ def gen_ops(rng, chaos=0.05):
         for _ in range(rng.randint(1, 4)):
             prog += result_ops(w)
         progs.append(prog)
-    # flatten with interleaving
+    # flatten with interleaving.  `joined` (most cases): a parent does not end its result while a lcc.Thread it
+    # spawned is still running (what a user who joins the threads gets); otherwise the join is implicit at the end.
+    joined = rng.random() < 0.85
     streams = [list(p) for p in progs]
+    children = {}       # id(parent stream) -> child streams
     while any(streams):
         live = [s for s in streams if s]
+        if joined:
+            ok = [s for s in live if not (isinstance(s[0], dict) and s[0]["op"] in _END_OPS
+                                          and any(children.get(id(s), [])))]
+            live = ok or live
         s = rng.choice(live)
         item = s.pop(0)
         if isinstance(item, tuple):
-            inner = item[1]
-            # the spawned thread becomes a new stream; the parent continues (join is implicit at the end)
-            flat = []
-            for it in inner:
-                flat.append(it)
+            # the spawned thread becomes a new stream
+            flat = list(item[1])
             streams.append(flat)
+            children.setdefault(id(s), []).append(flat)
         else:
             ops.append(item)
     ops.append({"tid": 1, "op": "endTestSession"})
